@@ -32,6 +32,10 @@ PROFILE_BOUNDED = S.profile(min_tasks=1, max_tasks=2, horizon=(2, 5), p_no_horiz
                             indicators=(1, 2), indicator_types=["FromMathExpression", "ResourceUtilization", "FromMathExpression"], objectives=(1, 1), p_optional=35,
                             p_release=10, p_due=10, p_work_amount=0, p_cumulative=0, p_select=20, p_indicator_bounds=85, only_objectives=["MinimizeIndicator", "MaximizeIndicator"],
                             indicator_constraints=40, optional_constraints=60)  # optional IndicatorBounds/Target on the optimised indicator bind nothing
+# objectives over user indicators WITHOUT declared bounds that carry optional (hence void) IndicatorBounds / IndicatorTarget
+PROFILE_VOIDBOUNDS = S.profile(min_tasks=1, max_tasks=3, horizon=(3, 6), p_no_horizon=0, p_resources=30, task_constraints=(0, 1), optional_rules=(0, 0), resource_constraints=(0, 0),
+                               indicators=(1, 2), indicator_types=["FromMathExpression"], objectives=(1, 1), only_objectives=["MinimizeIndicator", "MaximizeIndicator"],
+                               indicator_constraints=80, optional_constraints=80, p_indicator_bounds=15, p_optional=15, p_release=10, p_due=10, p_work_amount=0, p_weight_zero=0)
 # start-time objectives over optional tasks (an unscheduled task contributes to no objective)
 PROFILE_STARTOBJ = S.profile(min_tasks=2, max_tasks=3, horizon=(2, 5), p_no_horizon=0, p_resources=40, task_constraints=(0, 2), optional_rules=(0, 1), resource_constraints=(0, 0),
                              objectives=(1, 1), only_objectives=["TasksStartLatest", "MinimizeGreatestStartTime"], p_optional=65, p_release=20, p_due=30)
@@ -322,6 +326,7 @@ def run_shard(ctx):
     run_hypothesis(ctx, S.spec_with_pins(PROFILE_BOUNDED, n_sets=0), prop, max_examples=n)
     run_hypothesis(ctx, S.spec_with_pins(PROFILE_STARTOBJ, n_sets=0), prop, max_examples=n // 2)
     run_hypothesis(ctx, S.spec_with_pins(PROFILE_WEIGHTS, n_sets=0), prop, max_examples=n // 2)
+    run_hypothesis(ctx, S.spec_with_pins(PROFILE_VOIDBOUNDS, n_sets=0), prop, max_examples=n + n // 2)
 
 
 def replay(record):
